@@ -108,7 +108,27 @@ def srepr(v):
 
 
 def is_plain_int(v):
-    return type(v) is int
+    """An integer status: int or an int subclass that is not bool (http.HTTPStatus members, IntEnum members, an SDK's `class Code(int)`)."""
+    return isinstance(v, int) and not isinstance(v, bool)
+
+
+class SdkCode(int):
+    """An SDK-specific integer code type."""
+
+
+def as_int_subclass(rng, v):
+    import enum
+    import http
+
+    r = rng.random()
+    if r < 0.4:
+        try:
+            return http.HTTPStatus(v)
+        except ValueError:
+            pass
+    if r < 0.7:
+        return enum.IntEnum("VendorStatus", {"CODE": v}).CODE
+    return SdkCode(v)
 
 
 def work(ctx, tier):
@@ -147,7 +167,11 @@ def work(ctx, tier):
         def pick():
             r = rng.random()
             if r < 0.35:
-                return rng.choice(list(TABLE))
+                v = rng.choice(list(TABLE))
+                if rng.random() < 0.25:
+                    ctx.cnt["status_given_as_an_int_subclass"] += 1
+                    return as_int_subclass(rng, v)
+                return v
             if r < 0.55:
                 return rng.choice(UNDOCUMENTED_INTS)
             return rng.choice(vals)
